@@ -53,6 +53,15 @@ class ReadCSV(PartitionsFiltered, BlockwiseIO):
 
         return read_csv
 
+    @property
+    def _path_column(self):
+        flag = (self.kwargs or {}).get("include_path_column")
+        return "path" if flag is True else flag if isinstance(flag, str) else None
+
+    @property
+    def _path_column_only(self):
+        return self._path_column is not None and self.columns == [self._path_column]
+
     @functools.cached_property
     def _ddf(self):
         # Temporary hack to simplify logic
@@ -66,20 +75,20 @@ class ReadCSV(PartitionsFiltered, BlockwiseIO):
             kwargs.update(self.kwargs)
 
         columns = _convert_to_list(self.operand("columns"))
-        if columns is None:
-            pass
-        elif "include_path_column" in self.kwargs:
-            flag = self.kwargs["include_path_column"]
-            if flag is True:
-                column_to_remove = "path"
-            elif isinstance(flag, str):
-                column_to_remove = flag
-            else:
-                column_to_remove = None
+        if columns is not None:
+            if isinstance(kwargs.get("parse_dates"), list):
+                # labels of columns that are not read are "missing" for pandas
+                kwargs["parse_dates"] = [
+                    col
+                    for col in kwargs["parse_dates"]
+                    if not isinstance(col, str) or col in columns
+                ]
 
-            columns = [c for c in columns if c != column_to_remove]
+            columns = [c for c in columns if c != self._path_column]
 
             if not columns:
+                # Only the path column is selected: read the first column of
+                # the files for the rows, the tasks drop it again
                 meta = self.operation(
                     self.filename,
                     header=self.header,
@@ -98,6 +107,8 @@ class ReadCSV(PartitionsFiltered, BlockwiseIO):
 
     @functools.cached_property
     def _meta(self):
+        if self._path_column_only:
+            return self._ddf._meta[self.columns]
         return self._ddf._meta
 
     @functools.cached_property
@@ -121,6 +132,8 @@ class ReadCSV(PartitionsFiltered, BlockwiseIO):
     def _filtered_task(self, index: int):
         if self._series:
             return (operator.getitem, self._tasks[index], self.columns[0])
+        if self._path_column_only:
+            return (operator.getitem, self._tasks[index], self.columns)
         return self._tasks[index]
 
 
